@@ -2139,6 +2139,11 @@ func (it *Interp) appendBuiltin(st *state, args []Value, x *ssa.Call) Value {
 		it.unsup("append to a slice of unknown length")
 		return OpaqueV{"append"}
 	}
+	if base.Len+len(add) > 2048 {
+		it.unsup("append beyond 2048 elements (unbounded growth?)")
+		it.Fuel = 0
+		return OpaqueV{"append"}
+	}
 	// always reallocate (sound for provenance: the result holds old contents followed by the new ones)
 	o := it.NewObj(fmt.Sprintf("append%d", it.nobj+1), false)
 	st.mem[o] = map[string]Value{}
